@@ -152,6 +152,21 @@ CHECKS = {
             "means, with adjusted variance <= raw variance.",
             "Control-variate comparisons only for covariance matrices with condition number < 1e4 (counted "
             "otherwise); the near-singular guard of the library (b*=0) is mirrored."),
+    "C08": ("3/C08",
+            "Hypothesis-generated run histories (engine, seed, prior RNG consumption, simulation mode, clock) with "
+            "a harness-owned clock and spies on the seed calls; differential between two seeded runs; distinctness "
+            "of sample values / consumed variates; enumerated worker-process configurations",
+            "Exploration: the standard engine on the real LevyProcess (BS, Merton, HEM; fixed dates and jump "
+            "times) and the multilevel engine on an RNG-consuming scripted coupling and on a real "
+            "CouplingMarkovChain are each run twice with the same seed after different amounts of prior RNG "
+            "consumption and under different clock values: stored samples must be bit-identical; within a run all "
+            "samples must be pairwise distinct (shared variates show as equal values or repeated variate tuples "
+            "across paths, passes and levels), pre-drawn rows must all be consumed, coarse(l) must differ from "
+            "fine(l-1), and no seed value may be applied again once samples were produced under it. Worker "
+            "processes: 2..4 workers x path counts, stored samples must be pairwise distinct (currently a listed "
+            "known finding: chunks share the pre-drawn buffers).",
+            "The OS scheduling of workers is not controlled; the clock and every seed call are. Equal values = "
+            "shared variates holds because payoffs are continuous in the variates (sigma >= 0.05)."),
 }
 
 NOT_YET = "check not built yet in this session; will be claimed when its module exists"
